@@ -111,8 +111,9 @@ Definition round_of (b : bround) : round :=
 End WithClassify.
 
 (* the loop on byte-level scripts: request k is answered by the body bodies[k].  `A` holds what C15's classification
-   leaves abstract; the validation mode a_compat (= stateless_history in the code) changes error lists only, never
-   the data, so it is not tied to g here (see seen_of_compat_irrelevant in the proofs: not needed by any theorem). *)
+   leaves abstract; the validation mode a_compat (= stateless_history in the code) changes the error lists of a parsed
+   event only, never its data (SseJson.jclassify: data = canon (parse raw) in both modes), so it is not tied to g here:
+   the theorems hold for every A. *)
 Definition run_b (A : SseJson.absfns) (ob : obs_flags) (g : cfg) (valid : N -> request -> bool)
                  (tool : N -> call -> str) (prompt : str) (init : option (list item)) (bodies : list bround) : result :=
   run g valid tool prompt init (map (round_of (SseJson.jclassify A) ob 0) bodies).
